@@ -6,12 +6,21 @@
 // closed and every stored Parquet file is read back with an independent reader (hx.ReadParquet).
 //
 // CSV   : every file of <=3 data rows x <=3 columns over a 12-token cell alphabet x 3 delimiters x
-//         skip_rows {0,1}; every time column of <=3 rows over a per-format alphabet (epoch s/ms/us/ns,
-//         auto = epoch magnitudes + RFC3339 + date-only + space-separated, custom layout) x delimiter x
-//         skip_rows x time-column position x time-column name; files without a time column; ragged rows.
+//
+//	skip_rows {0,1}; every time column of <=3 rows over a per-format alphabet (epoch s/ms/us/ns,
+//	auto = epoch magnitudes + RFC3339 + date-only + space-separated, custom layout) x delimiter x
+//	skip_rows x time-column position x time-column name; files without a time column; ragged rows.
+//
 // Parquet: every column of <=3 rows over a per-type value alphabet (with NULLs) for every Arrow type the
-//         importer supports (and several it does not) x time column timestamp[s|ms|us|ns] x row-group
-//         layout; every time column over a per-type alphabet for every time-column type x time_format.
+//
+//	importer supports (and several it does not) x time column timestamp[s|ms|us|ns] x row-group
+//	layout; every time column over a per-type alphabet for every time-column type x time_format.
+//
+// Fault x context (fault.go): for a few fixed files of EVERY import endpoint (csv, parquet, lp, tle): buffer
+//
+//	layout x every subset of other measurements/databases with pending rows (visited before and after
+//	the imported key by FlushAll) x every subset of the request's storage writes failing; answered
+//	2xx => exactly the file's rows are stored.
 //
 // Oracle (see ref.go): an independent reading of the uploaded bytes (encoding/csv strict mode; arrow-go
 // reader + exact big-number arithmetic) says which rows the file holds. 2xx => same number of rows, all
@@ -63,7 +72,9 @@ func main() {
 	debug.SetGCPercent(400)
 	cp := csvPlan{MaxRowsTime: 2, Big: false, NoTimeColumns: 1}
 	pp := pqPlan{MaxRows: 2}
+	fp := quickFaultPlan()
 	if !run.Quick() {
+		fp = thoroughFaultPlan()
 		cp = csvPlan{CrossPairs: true, MaxRowsTime: 3, Big: true, NoTimeColumns: 2}
 		pp = pqPlan{MaxRows: 3}
 		// own budget: thorough must end within 15 minutes; whatever is not reached is reported (exhaustive=false)
@@ -76,7 +87,7 @@ func main() {
 		fmt.Println("C31: replay files are self-describing (endpoint, query, file); re-run the check to reproduce")
 	}
 
-	var evals, accepted, rejected, nontriv, dups int64
+	var evals, accepted, rejected, nontriv, dups, faultEvals int64
 	var incomplete int32
 	stats := map[string]int64{}
 	var smu sync.Mutex
@@ -124,7 +135,35 @@ func main() {
 					}
 					v := c.run(s)
 					n := atomic.AddInt64(&evals, 1)
-					if v.Accept {
+					if fo := v.Fault; fo != nil {
+						// the fault x context family keeps its own books
+						fe := atomic.AddInt64(&faultEvals, 1)
+						if fe%701 == 2 {
+							samples.Add(sg)
+						}
+						local["fault:cases"]++
+						local["fault:executions_incl_order_retries"] += int64(fo.Runs)
+						if fo.Outcome != "" {
+							local["fault:outcome:"+fo.Outcome]++
+						}
+						if fo.Fired > 0 {
+							local["fault:cases_with_a_fault_reached"]++
+						}
+						for p, k := range fo.Pos {
+							local["fault:db1/m1_visited_"+p] += int64(k)
+						}
+						if fo.NonTrivial {
+							atomic.AddInt64(&nontriv, 1)
+							local["fault:nontrivial"]++
+						}
+						if fo.OrderIncomplete {
+							local["fault:order_classes_incomplete"]++
+							atomic.StoreInt32(&incomplete, 1)
+						}
+						if fo.PlacementMismatch != "" {
+							ev.Unbound("C31 harness: the visiting order of the buffer keys is not the predicted one (" + fo.PlacementMismatch + "); case " + sg)
+						}
+					} else if v.Accept {
 						atomic.AddInt64(&accepted, 1)
 						if v.Kind == "" {
 							atomic.AddInt64(&nontriv, 1)
@@ -133,7 +172,7 @@ func main() {
 					} else {
 						atomic.AddInt64(&rejected, 1)
 					}
-					if n%40009 == 1 {
+					if n%40009 == 1 && v.Fault == nil {
 						samples.Add(sg)
 					}
 					if v.Kind != "" {
@@ -175,7 +214,13 @@ func main() {
 			batch = nil
 		}
 	}
-	only := os.Getenv("C31_ONLY") // debugging aid: restrict to one family ("csv" / "parquet"); never set by ./check
+	only := os.Getenv("C31_ONLY") // debugging aid: restrict to one family ("csv" / "parquet" / "fault"); never set by ./check
+	// the fault x context family first: it is small and must not be cut off by the thorough tier's time cap
+	buildFaultFiles(fp)
+	faultContexts, faultEmitted := 0, 0
+	if only == "" || only == "fault" {
+		faultContexts, faultEmitted = enumFault(fp, emit)
+	}
 	if only == "" || only == "csv" {
 		enumCSV(cp, emit)
 	}
@@ -300,6 +345,17 @@ func main() {
 	run.Coverage["exhaustive"] = incomplete == 0
 	run.Coverage["samples"] = samples.List()
 	run.Coverage["cell_alphabet"] = []string{"", "0", "1", "-1", "1.5", "9007199254740993", "1e400", "true", "TRUE", "abc", `"a,b"`, " 1"}
+	ff := map[string]int64{}
+	for k, n := range stats {
+		if strings.HasPrefix(k, "fault:") {
+			ff[strings.TrimPrefix(k, "fault:")] = n
+		}
+	}
+	ff["contexts_file_x_layout_x_pending_keys"] = int64(faultContexts)
+	run.Coverage["fault_family"] = ff
+	// the family is emitted first, so the thorough tier's time cap (12^6 CSV block) does not cut it off
+	run.Coverage["fault_family_exhaustive"] = faultEmitted > 0 && ff["cases"] == int64(faultEmitted) && ff["order_classes_incomplete"] == 0
+	run.Coverage["fault_family_plan"] = fp.describe()
 	run.Coverage["csv_plan"] = fmt.Sprintf("%+v", cp)
 	run.Coverage["parquet_plan"] = fmt.Sprintf("%+v", pp)
 	run.Coverage["rule"] = "product enumeration (no sampling): CSV data grids R<=3 x C<=1 and R<=2 x C<=2 data columns (+time column) over the 12-token cell alphabet x {',',';',TAB} x skip_rows{0,1}" +
@@ -307,7 +363,8 @@ func main() {
 		" time column first/last x named time/ts; files without time column; ragged rows; Parquet: every column of <=MaxRows rows over a per-type alphabet incl. NULL for each Arrow type x time column timestamp[s,ms,us,ns] x" +
 		" row-group layout {one, one per row}, and every time column over a per-type alphabet for each time column type x time_format. Each case = one HTTP request to the real handler on a fresh ArrowBuffer and backend." +
 		" distinct = by (endpoint, query, file bytes) (FNV-64 of the signature; duplicates skipped and counted); non-trivial = answered 2xx AND every stored row compared cell by cell with the independent parse without disagreement"
-	run.Assume("authentication disabled (nil AuthManager -> pass-through admin gate), RBAC disabled; storage is an in-memory backend that never fails (storage faults are C07's business)")
+	run.Assume("authentication disabled (nil AuthManager -> pass-through admin gate), RBAC disabled; storage is an in-memory backend that never fails outside the fault x context family; there, only 'answered 2xx => the file's rows are stored' is demanded - what a failed flush leaves behind when the answer is an error (partly stored multi-hour files, lost rows of other measurements) is C07's business")
+	run.Assume("fault x context family: TLE rows are identified by (norad_id, object_name) only; LP rows by time, tag and field value; the other keys' pending rows are not judged")
 	run.Assume("a rejection (non-2xx) of an importable file is allowed by the statement; only 'nothing stored' is demanded of it")
 	run.Assume("sub-microsecond remainders may be truncated or rounded either way (floor..ceil of the exact value accepted)")
 	run.Assume("CSV numeric alphabet contains only values that are exactly representable in binary floating point or are integers; decimal->binary rounding of fractions like 0.1 is not judged. An empty CSV cell may be stored as NULL or as the empty string")
@@ -330,6 +387,9 @@ func describe(v verdict) string {
 		"surplus-cell-dropped":    "a row with more cells than the header has columns was accepted; the surplus cell is silently dropped",
 		"wrong-target":            "a file was stored outside the requested database/measurement",
 		"stored-unreadable":       "a stored Parquet file cannot be read back",
+		"ack-rows-lost":           "the import was answered 2xx although a storage write of the request failed and the file's rows are not (all) stored",
+		"ctx-rows-wrong":          "the import was answered 2xx with other measurements pending in the buffer, no storage write failed, and the rows stored under the requested measurement are not the file's",
+		"ctx-rowcount":            "the import was answered 2xx and the file's rows are stored, but rows_imported is not the number of data rows",
 	}
 	return m[v.Kind] + " (" + v.Detail + ")"
 }
